@@ -385,3 +385,25 @@ def fam_dyck_inputs(tier):
     mixed = ["([x])", "([(())x])", "([x][x])", "(([x])[])", "([])", "((", "(()", "())", "([x)", "([(])"]
     g["inputs"] = [cps(s) for s in sorted(set(trees + mixed + ins[:50]))]
     return [g]
+
+
+# ------------------------------------------------------------------------------------------------
+def fam_get(tier):
+    """C16: bodies enumerating the positions in which a rule can be mentioned."""
+    bodies = ["x", "x?", "x*", "x+", "x ~ x", "x ~ y ~ x", "(x | y ~ x)", "(x ~ y)*", "&x ~ x", "!x ~ y", "!x ~ ANY ~ x", "PUSH(x)", "PUSH(x) ~ POP ~ x?",
+              "(x | y)? ~ (x ~ (y | x)*)+", "x{2}", "x{1,2}", "(x ~ z)*", "z ~ x ~ z", "(z | x)", "((x ~ y) | (y ~ x))", "(x? ~ y)*", "&(x ~ y) ~ x", "x ~ (&x)?",
+              "w ~ x ~ w", "x ~ EOI", "SOI ~ x* ~ EOI", "(x?)?", "(x*)?", "(x | y | z | w)*", "(x ~ x)+", "x? ~ x? ~ x?", "(x | x ~ y)", "(y | x)? ~ x*", "((x | y)*)",
+              "!(x ~ x) ~ x", "&(x | y) ~ (y | x)", "PUSH(x | y) ~ PEEK", "(PUSH(x))* ~ POP_ALL", "x ~ (y ~ x)*", "(x ~ y)* ~ x", "(x ~ (y ~ (x ~ y?)?)?)", "((((x)?)*)?)",
+              "(x | y)+ ~ z?", "(z ~ x)? ~ (z ~ y)?", "(x ~ \"-\" ~ x) | x", "x ~ \"-\"? ~ y ~ \"-\"? ~ x", "(\"-\" ~ x)* ~ (\"-\" | y)", "v", "v ~ x", "(v | x)*"]
+    hdr = "\n".join([rule("x", '"a"'), rule("y", '"b"'), rule("z", '"c"', "silent"), rule("w", '"d"', "atomic"), rule("v", 'x ~ y?', "silent")])
+    kinds = ["normal", "silent", "compound", "nonatomic", "normal"]
+    out = []
+    for ws in (False, True):
+        h = hdr + ("\n" + WS_SP if ws else "")
+        ok = filter_valid(bodies, h, "get_f")
+        rules = [(b, kinds[i % len(kinds)]) for i, b in enumerate(ok)]
+        if tier == "quick":
+            rules = rules[(1 if ws else 0)::2]
+        out += pack("gw" if ws else "gp", rules, 8, header=h, alphabet=cps("abcd- ") if ws else cps("abcd-"), maxlen=3 if tier == "quick" else 4,
+                    inputs=[cps(s) for s in ["abab", "aaaa", "a-a", "a-b-a", "-a-a-", "abaab", "a b a", "aa a", "a - a", "caca", "dad", "ababa"]])
+    return out
